@@ -184,6 +184,11 @@ func tearingDown() bool {
 	return t != nil && unsafe.Pointer(t) == runtime_getProfLabel()
 }
 
+// TearingDown reports whether the calling goroutine is a managed thread being unwound by teardown (its deferred
+// functions are running because the execution ended while it was parked). Shims use it to keep that unwinding
+// from tripping over primitives whose state the parked operation had changed (a Cond waiter has released its lock).
+func TearingDown() bool { return tearingDown() }
+
 // Options of one execution.
 type Options struct {
 	Prefix     []int
